@@ -341,6 +341,12 @@ func implSlice(f []string) string {
 				if tok != "" {
 					o = tok
 				}
+			case "jslneg":
+				_, tok := runJS(vm, "s.length = -1; 0")
+				o = "-"
+				if tok != "" {
+					o = tok
+				}
 			case "jd":
 				v, tok := runJS(vm, "delete s["+a[1]+"]")
 				o = "-"
